@@ -310,6 +310,8 @@ void HttpMessage::readBody()
 			if (maxToRead == 0)
 				end = true;
 		}
+		else if (maxToRead <= 0) // input signalled but no byte counted: read one, which fails and ends the loop if the peer closed
+			maxToRead = 1;
 		while (maxToRead > 0) {
 			bytesRead = _socket->read(buffer, min(maxToRead, (int)sizeof(buffer)));
 			if (bytesRead <= 0) {
